@@ -394,7 +394,25 @@ class Parser:
 
         if isinstance(res, ast.AST) and any(not t.string.isascii() for t in self._tokenizer._tokens if t.type == Token.NAME):
             self._normalize_identifiers(res)
+        if isinstance(res, ast.AST) and any(not t.line.isascii() for t in self._tokenizer._tokens):
+            self._columns_to_byte_offsets(res)
         return res
+
+    def _columns_to_byte_offsets(self, tree: ast.AST) -> None:
+        """col_offset / end_col_offset of CPython's trees count UTF-8 bytes; the tokenizer counts characters."""
+        numbers = {n for node in ast.walk(tree) for n in (getattr(node, "lineno", None), getattr(node, "end_lineno", None)) if n}
+        lines = dict(zip(sorted(numbers), self._tokenizer.get_lines(sorted(numbers))))
+
+        def convert(lineno: int | None, col: int | None) -> int | None:
+            line = lines.get(lineno, "") if lineno else ""
+            if col is None or line.isascii():
+                return col
+            return len(line[:col].encode("utf-8", "surrogatepass"))
+
+        for node in ast.walk(tree):
+            if hasattr(node, "col_offset"):
+                node.col_offset = convert(node.lineno, node.col_offset)  # type: ignore[attr-defined]
+                node.end_col_offset = convert(getattr(node, "end_lineno", None), getattr(node, "end_col_offset", None))  # type: ignore[attr-defined]
 
     _IDENTIFIER_FIELDS: ClassVar[frozenset[str]] = frozenset({"id", "attr", "arg", "name", "asname", "module", "rest", "names", "kwd_attrs"})
 
